@@ -365,6 +365,15 @@ class NodeLevel(ast.NodeTransformer):
         if not visited:
             self.generic_visit(node)
         v = node.value
+        # a = b = E  ->  t = E ; a = t ; b = t   (in a pattern t is a metavariable)
+        if self.depth and len(node.targets) > 1:
+            if isinstance(v, (ast.Constant, ast.Name)):
+                return [self.visit_Assign(ast.copy_location(ast.Assign(targets=[t], value=copy.deepcopy(v), type_comment=None), node), visited=True) for t in node.targets]
+            self.chains = getattr(self, 'chains', 0) + 1
+            tmp = f'chained__{self.chains}' if self.path else f'_CHAINED{self.chains}'
+            first = ast.copy_location(ast.Assign(targets=[ast.Name(id=tmp, ctx=ast.Store())], value=v, type_comment=None), node)
+            rest = [ast.copy_location(ast.Assign(targets=[t], value=ast.Name(id=tmp, ctx=ast.Load()), type_comment=None), node) for t in node.targets]
+            return [ast.fix_missing_locations(x) for x in [first] + rest]
         # a, b = x, y  ->  a = x ; b = y   (fresh names on the left, none of them read on the right)
         if self.depth and len(node.targets) == 1 and isinstance(node.targets[0], ast.Tuple) and isinstance(v, ast.Tuple) and len(v.elts) == len(node.targets[0].elts) >= 2 \
                 and all(isinstance(t, ast.Name) for t in node.targets[0].elts) and not any(isinstance(e, ast.Starred) for e in v.elts):
@@ -449,6 +458,16 @@ class NodeLevel(ast.NodeTransformer):
 
 
 # --------------------------------------------------------------------------- block level
+
+
+def _no_effect(e: ast.AST) -> bool:
+    """an expression that only builds a value from its operands (constructor of a path, arithmetic, formatting)"""
+    for n in ast.walk(e):
+        if isinstance(n, ast.Call) and not (isinstance(n.func, ast.Name) and n.func.id in ('Path', 'str', 'int', 'float', 'len', 'tuple', 'list')):
+            return False
+        if isinstance(n, (ast.Yield, ast.YieldFrom, ast.Await, ast.NamedExpr, ast.Lambda)):
+            return False
+    return True
 
 
 def _loads_stores(fn: ast.AST):
@@ -718,6 +737,8 @@ class BlockLevel:
 
     def block(self, stmts: list, owner, field) -> list:
         stmts = self.raise_first(stmts)
+        stmts = self.local_accumulator(stmts)
+        stmts = self.loop_carried(stmts)
         stmts = self.push_use(stmts)
         stmts = self.expand_ifexp(stmts)
         stmts = self.swap_and_hoist(stmts, self.bare_kind(owner, field))
@@ -726,6 +747,65 @@ class BlockLevel:
         stmts = self.merge_ifs(stmts)
         stmts = self.loops(stmts)
         stmts = self.merge_accumulators(stmts)
+        return stmts
+
+    def local_accumulator(self, stmts):
+        """`L = []` ... `L.append(e)` ... `x += L` (L used for nothing else, x untouched in between)  ->  `x.append(e)` in place:
+        findings collected in a list of their own and added to the report afterwards are findings added to the report"""
+        for i, st in enumerate(stmts):
+            if not (isinstance(st, ast.Assign) and len(st.targets) == 1 and isinstance(st.targets[0], ast.Name) and isinstance(st.value, ast.List) and not st.value.elts):
+                continue
+            name = st.targets[0].id
+            for j in range(i + 1, len(stmts)):
+                e = stmts[j]
+                if isinstance(e, ast.AugAssign) and isinstance(e.op, ast.Add) and isinstance(e.value, ast.Name) and e.value.id == name and isinstance(e.target, (ast.Name, ast.Attribute)):
+                    break
+            else:
+                continue
+            x = ast.dump(_load(e.target))
+            mid = stmts[i + 1:j]
+            appends = [n for m in mid for n in ast.walk(m) if isinstance(n, ast.Call) and isinstance(n.func, ast.Attribute) and n.func.attr == 'append' and isinstance(n.func.value, ast.Name) and n.func.value.id == name]
+            loads, stores = _loads_stores(self.fn)
+            if not appends or stores.get(name) != 1 or loads.get(name) != len(appends) + 1:
+                continue
+            if any(ast.dump(n) == x for m in mid for n in ast.walk(m) if isinstance(n, (ast.Name, ast.Attribute))):
+                continue
+            if any(isinstance(n, (ast.FunctionDef, ast.Lambda)) for m in mid for n in ast.walk(m)):
+                continue
+            for c in appends:
+                c.func.value = copy.deepcopy(_load(e.target))
+            return self.local_accumulator(stmts[:i] + mid + stmts[j + 1:])
+        return stmts
+
+    def loop_carried(self, stmts):
+        """`t = E` ... `while P(t): ...; t = E; ...` (t read only by the loop test, nothing E reads is assigned after the two
+        definitions)  ->  `while P(E): ...`: the test always sees E of the current values"""
+        for j, w in enumerate(stmts):
+            if not isinstance(w, ast.While) or w.orelse:
+                continue
+            tnames = {n.id for n in ast.walk(w.test) if isinstance(n, ast.Name)}
+            for t in sorted(tnames):
+                pre = [i for i in range(j) if isinstance(stmts[i], ast.Assign) and len(stmts[i].targets) == 1 and isinstance(stmts[i].targets[0], ast.Name) and stmts[i].targets[0].id == t]
+                inb = [k for k, b in enumerate(w.body) if isinstance(b, ast.Assign) and len(b.targets) == 1 and isinstance(b.targets[0], ast.Name) and b.targets[0].id == t]
+                if len(pre) != 1 or len(inb) != 1:
+                    continue
+                i, k = pre[0], inb[0]
+                e = stmts[i].value
+                if ast.dump(e) != ast.dump(w.body[k].value) or not _no_effect(e):
+                    continue
+                loads, stores = _loads_stores(self.fn)
+                in_test = sum(isinstance(n, ast.Name) and n.id == t for n in ast.walk(w.test))
+                if stores.get(t) != 2 or loads.get(t) != in_test:
+                    continue
+                free = {n.id for n in ast.walk(e) if isinstance(n, ast.Name)}
+                later = stmts[i + 1:j] + w.body[k + 1:]
+                if any(isinstance(n, ast.Name) and isinstance(n.ctx, ast.Store) and n.id in free for m in later for n in ast.walk(m)):
+                    continue
+                if any(isinstance(n, (ast.Break, ast.Continue)) for b in w.body[:k] for n in ast.walk(b)):
+                    continue
+                w.test = _Subst({t: e}, {}).visit(w.test)
+                w.body = w.body[:k] + w.body[k + 1:]
+                return self.loop_carried(stmts[:i] + stmts[i + 1:])
         return stmts
 
     def expand_ifexp(self, stmts):
@@ -1188,13 +1268,20 @@ def inline_unknown_helpers(tree: ast.Module, path: str) -> None:
             for f in node.body:
                 if isinstance(f, ast.FunctionDef) and f'{path}::{node.name}.{f.name}' not in inv:
                     f._verif_new_helper = True
+    def nested(fn):
+        return [n for n in ast.walk(fn) if isinstance(n, ast.FunctionDef) and n is not fn]
+
     for node in tree.body:
         if isinstance(node, ast.FunctionDef):
+            for g in nested(node):  # (the wrapper inside a decorator)
+                expand_in(g, {})
             expand_in(node, {})
         elif isinstance(node, ast.ClassDef):
             helpers = {f.name: f for f in node.body if isinstance(f, ast.FunctionDef) and f'{path}::{node.name}.{f.name}' not in inv}
             for f in node.body:
                 if isinstance(f, ast.FunctionDef):
+                    for g in nested(f):
+                        expand_in(g, helpers)
                     expand_in(f, helpers)
     _mark_transparent(tree)
 
@@ -1419,12 +1506,54 @@ def as_if(st: ast.stmt):
     return new
 
 
+def _as_string_loop(st: ast.stmt):
+    """`s = A + ''.join([F for x in X])` / `s += ''.join([F for x in X])`  ->  `s = A` ; `for x in X: s += F`  (a text built
+    piece by piece, for the interpreters that follow an accumulator)"""
+    if not (isinstance(st, (ast.Assign, ast.AugAssign)) and (isinstance(st, ast.AugAssign) or len(st.targets) == 1)):
+        return None
+    tgt = st.target if isinstance(st, ast.AugAssign) else st.targets[0]
+    if not isinstance(tgt, ast.Name) or (isinstance(st, ast.AugAssign) and not isinstance(st.op, ast.Add)):
+        return None
+
+    def joined(e):
+        if isinstance(e, ast.Call) and isinstance(e.func, ast.Attribute) and e.func.attr == 'join' and isinstance(e.func.value, ast.Constant) and e.func.value.value == '' \
+                and len(e.args) == 1 and not e.keywords and isinstance(e.args[0], (ast.ListComp, ast.GeneratorExp)):
+            return e.args[0]
+        return None
+
+    v = st.value
+    head = None
+    comp = joined(v)
+    if comp is None and isinstance(v, ast.BinOp) and isinstance(v.op, ast.Add):
+        comp, head = joined(v.right), v.left
+    if comp is None or (head is None and isinstance(st, ast.Assign)):
+        return None
+    inner: ast.stmt = ast.AugAssign(target=ast.Name(id=tgt.id, ctx=ast.Store()), op=ast.Add(), value=comp.elt)
+    for g in reversed(comp.generators):
+        for c in reversed(g.ifs):
+            inner = ast.If(test=c, body=[inner], orelse=[])
+        inner = ast.For(target=g.target, iter=g.iter, body=[inner], orelse=[])
+    first = [ast.Assign(targets=[tgt], value=head, type_comment=None) if isinstance(st, ast.Assign) else ast.AugAssign(target=tgt, op=ast.Add(), value=head)] if head is not None else []
+    res = first + [inner]
+    for x in res:
+        ast.copy_location(x, st)
+        ast.fix_missing_locations(x)
+        for n in ast.walk(x):
+            if not hasattr(n, '_verif_seq'):
+                n._verif_seq = getattr(st, '_verif_seq', 0)
+    return res
+
+
 def explicit(stmts: list) -> list:
     """the statements with conditional values written as if / else and comprehension statements written as loops, recursively:
     the form read by the interpreters that follow a function statement by statement (record templates, degree typing,
     closed forms); the patterns work on the normal form itself"""
     out = []
     for st in stmts:
+        js = _as_string_loop(st)
+        if js is not None:
+            out.extend(explicit(js))
+            continue
         lp = as_loop(st) if not (isinstance(st, ast.Assign) and isinstance(st.value, (ast.ListComp, ast.DictComp, ast.SetComp))) else None
         if lp is not None:
             out.extend(explicit(lp))
